@@ -34,6 +34,8 @@ func init() {
 			"regexp/syntax.Parse with Perl flags is what regexp.MustCompile accepts",
 		},
 		Mutants: []Mutant{
+			{ID: "C17-on-open-doubles-as-network-on-open", Desc: "a network platform without network-on-open gets its on-open list as network on-open too (run twice)", Rule: "C17/as-options-wiring",
+				Edits: []Edit{{File: "platform/definition.go", Old: "\tif len(p.NetworkOnOpen) > 0 {\n\t\topts = append(opts, options.WithNetworkOnOpen(p.NetworkOnOpen.asNetworkOnX()))\n\t}", New: "\tnetworkOnOpen := p.NetworkOnOpen\n\tif len(networkOnOpen) == 0 {\n\t\tnetworkOnOpen = p.OnOpen\n\t}\n\n\tif len(networkOnOpen) > 0 {\n\t\topts = append(opts, options.WithNetworkOnOpen(networkOnOpen.asNetworkOnX()))\n\t}"}}},
 			{ID: "C17-empty-input-waits-for-echo", Desc: "ReadUntilFuzzy no longer returns at once for an empty input (cumulus root_login steps with an empty command)", Rule: "C17/empty-step",
 				Edits: []Edit{{File: "channel/read.go", Old: "\tif len(b) == 0 {\n\t\treturn nil, nil\n\t}\n\n\tvar rb []byte", New: "\tvar rb []byte"}}},
 			{ID: "C17-rename-const", Desc: "advertised name without embedded file", Rule: "C17/name-file",
@@ -98,6 +100,8 @@ func runC17(c *Ctx, r *Report) {
 	r.Rule("C17/graph-links", "the driver's privilege graph links every level of the definition with its previous level in both directions (levels without an escalate command remain starting points)", 2)
 	r.Rule("C17/fresh-definition", "the platform package modifies no package-level variable at run time: each load yields its own Definition / Platform objects", 1)
 	r.Rule("C17/options", "every option block entry uses an option name platform/options.go switches on, with a YAML value whose Go dynamic type is the one the code asserts", 1)
+	r.Rule("C17/as-options-wiring", "AsOptions builds each driver option from the definition field of the same name and from nothing else, once", 7)
+	checkAsOptionsWiring(c, r, "C17/as-options-wiring")
 	r.Rule("C17/merge", "mergeVariant assigns each mergeable section only from the same section of the variant, guarded by that section's non-empty test; all eight sections are merged", 8)
 
 	pp := c.pkgRel("platform")
